@@ -9,12 +9,26 @@ UTC = timezone.utc
 MIN = timedelta(minutes=1)
 
 
-def hours_spec(m, r):
-    """the resource's OWN hours (via shift or inline); None = the project default applies"""
+def shift_of(m, r):
+    """the shift the resource works: its own reference, else - if it has no inline hours - the nearest enclosing group's"""
     if "shift" in r:
-        return m["shifts"][r["shift"]]
+        return r["shift"]
     if "inline" in r:
+        return None
+    gm = {g["id"]: g for g in m.get("groups", [])}
+    for gid in gen.group_chain(m, r):
+        if gm[gid].get("shift"):
+            return gm[gid]["shift"]
+    return None
+
+
+def hours_spec(m, r):
+    """the resource's hours (own inline hours, own shift, a shift inherited from a group); None = the project default applies"""
+    if "inline" in r and "shift" not in r:
         return r["inline"]
+    sid = shift_of(m, r)
+    if sid is not None:
+        return m["shifts"][sid]
     return None
 
 
@@ -58,8 +72,9 @@ class Calendar:
         self.tab = week_table(own if own is not None else m.get("proj_hours"))
         self.zone = ZoneInfo(r["tz"]) if (r.get("tz") and own is not None) else None
         self.off = []
-        if "shift" in r:
-            for s, e in m.get("shift_leaves", {}).get(r["shift"], []):
+        sid = shift_of(m, r)
+        if sid is not None:
+            for s, e in m.get("shift_leaves", {}).get(sid, []):
                 self.off.append(interval_of(s, e))
         gm = {g["id"]: g for g in m.get("groups", [])}
         for gid in gen.group_chain(m, r):
